@@ -13,7 +13,8 @@
    State of the code modelled: /repo after the fix commits 87b8642 (save_dict = temporary sibling + flush +
    sync_all + rename), ebb53b3 (contains_exact_word compares normalised spellings), f2dc537 (child hash =
    sum of per-word hashes), ba0a239 (import_words re-synchronises whenever the dictionary changed),
-   08b9da8 (file_dict_name fails for a URL that names no file).
+   08b9da8 (file_dict_name fails for a URL that names no file), cfbe845 (the add commands load, extend and
+   save under one lock).
    The definitions named `..._old` are the code BEFORE those commits; they are kept only for the
    regression witnesses (`C07_*_old_refuted`) and are not part of the extracted model. *)
 Require Import Base.
@@ -443,6 +444,49 @@ Section Model.
     | o :: r => let (st', out) := step_op_cached st o in
                 let (st'', outs) := run_cached st' r in (st'', out :: outs)
     end.
+
+  (* -------------------------------------------------------------------------------------------- *)
+  (*  add commands handled concurrently (tower-lsp overlaps the handlers of requests that arrive     *)
+  (*  together).  A command is two steps: LOAD the dictionary of its target, then append the word    *)
+  (*  and SAVE.  Since cfbe845 both steps happen under Backend::dict_write_lock (one lock for all    *)
+  (*  dictionaries): a command that finds the lock taken waits.  A schedule is the list of command   *)
+  (*  indices in the order in which the executor polls them; a poll advances the command by one step *)
+  (*  if it can.                                                                                     *)
+  (* -------------------------------------------------------------------------------------------- *)
+  Definition cmd := (scope * word)%type.
+  Definition cmd_at (cmds : list cmd) (i : nat) : cmd := nth i cmds (SUser, []).
+  Definition cmd_load (c : cmd) (s : fsys) : dict :=
+    match target (fst c) with Some p => dict_at p s | None => [] end.
+  Definition cmd_save (c : cmd) (d : dict) (s : fsys) : fsys :=
+    match target (fst c) with Some p => save_dict p (append_word d (snd c)) s | None => s end.
+  Definition finished (i : nat) (ord : list nat) : bool := existsb (Nat.eqb i) ord.
+  (* state: disk, the command holding the lock with the dictionary it loaded, the finished commands in
+     the order in which they finished *)
+  Definition lstate := (fsys * option (nat * dict) * list nat)%type.
+  Definition lstep (cmds : list cmd) (st : lstate) (i : nat) : lstate :=
+    let '(s, holder, ord) := st in
+    if finished i ord then st else
+    match holder with
+    | None => (s, Some (i, cmd_load (cmd_at cmds i) s), ord)                     (* lock; load *)
+    | Some (j, d) =>
+        if Nat.eqb j i then (cmd_save (cmd_at cmds i) d s, None, ord ++ [i])         (* save; unlock *)
+        else st                                                                      (* waits for the lock *)
+    end.
+  Definition run_locked (cmds : list cmd) (s : fsys) (sched : list nat) : lstate :=
+    fold_left (lstep cmds) sched (s, None, []).
+  (* before cfbe845: no lock — every command loads whenever it is polled first and saves what IT loaded *)
+  Definition ustate_old := (fsys * list (nat * dict) * list nat)%type.
+  Fixpoint loaded_get (i : nat) (l : list (nat * dict)) : option dict :=
+    match l with [] => None | (j, d) :: t => if Nat.eqb j i then Some d else loaded_get i t end.
+  Definition ustep_old (cmds : list cmd) (st : ustate_old) (i : nat) : ustate_old :=
+    let '(s, loaded, ord) := st in
+    if finished i ord then st else
+    match loaded_get i loaded with
+    | None => (s, (i, cmd_load (cmd_at cmds i) s) :: loaded, ord)
+    | Some d => (cmd_save (cmd_at cmds i) d s, loaded, ord ++ [i])
+    end.
+  Definition run_unlocked_old (cmds : list cmd) (s : fsys) (sched : list nat) : ustate_old :=
+    fold_left (ustep_old cmds) sched (s, [], []).
 
   (* -------------------------------------------------------------------------------------------- *)
   (*  harper_wasm::Linter: user_dictionary + the dictionary the LintGroup was built with            *)
